@@ -108,15 +108,17 @@ CHECKS = {
         ],
         'sigs_per_leg': True,
         'rule': ('a case is one fault-free simulated call (faultcall: one of the high-level functions with valid arguments over its documented '
-                 'size range, every caller buffer and every library blob at exactly its documented size on the simulated heap, executed twice '
-                 'under different seeded heap garbage) or one simulated stream (streamsim: states at exactly _keep() octets); '
+                 'size range, every caller buffer and every library blob at exactly its documented size on the simulated heap, executed three times: '
+                 'twice under different seeded heap and C-stack garbage, once with fresh memory holding the stale image the previous identical call left) '
+                 'or one simulated stream (streamsim: states at exactly _keep() octets) or one fault-free protocol session executed under garbage A, '
+                 'garbage B and the stale image of a sibling session with the same keys (protosim/bakebase); '
                  'distinct = distinct (function, argument-size variant, allocation trace) resp. (bundle, fragmentation shape) signatures; '
                  'trivial cases (none) are not produced'),
         'real': REAL_ALL,
         'stub': ['libc malloc/realloc/free (exact-size arena with red zones, seeded garbage, blobs un-rounded via H-blob)'],
         'assumptions': [
             'partial by construction (DESIGN.md C07): only what the environment half can decide - exact sizes, red zones, garbage differential, ASSERTs on',
-            'math-layer functions with their own stack argument are reached only through high-level callers',
+            'math-layer functions with a caller stack have their own descriptors (fc_math.c, fc_math2.c: zz, pp, pri, zm, qr, gfp, gf2, ec, ecp, ec2); word-level (ww) and stack-free functions are reached only through their callers',
             'UBSan alignment/integer checks are off (bee2 does unaligned word loads by design)',
         ],
         'mandatory_probes': {'any': ['calls', 'fault.state_migrated', 'probe.several_exit_destructors', 'probe.protocol_sessions_twice']},
@@ -261,15 +263,15 @@ MANIFEST_TEXT = {
         'technique': 'deterministic simulation: seeded scheduler over fibers + TSan happens-before + sequential-replay linearizability',
     },
     'C07': {
-        'text': ('Rider check, partial by construction: fault-free simulated calls of ~95 high-level functions, 35 arithmetic-layer entry points with caller-owned stacks and 21 streaming bundles on the simulated heap with '
-                 'exact-size buffers, states and blobs (H-blob), ASan + memory-related UBSan, library ASSERTs on, in the 64-bit and 32-bit word '
-                 'configuration, each call repeated under different seeded heap garbage with identical results required.'),
+        'text': ('Rider check, partial by construction: fault-free simulated calls of ~125 high-level functions, 58 arithmetic-layer descriptors (every function of include/bee2/math with a caller-owned stack), 21 streaming bundles and the four bake/BAUTH protocols on the simulated heap with '
+                 'exact-size buffers, states, stacks and blobs (H-blob), ASan + memory-related UBSan, library ASSERTs on, in the 64-bit and 32-bit word '
+                 'configuration, each call repeated under different seeded heap and C-stack garbage and under the stale image of a previous computation, with identical results required.'),
         'design_ref': 'DESIGN.md §3 C07',
         'note': 'Decides only the environment half of C07 (where memory comes from, its exact size, its prior content); it is not an operand sweep of every public entry point.',
-        'technique': 'deterministic simulation: exact-size simulated heap + seeded garbage differential under sanitizers',
+        'technique': 'deterministic simulation: exact-size simulated heap + seeded garbage / stale-image differential under sanitizers',
     },
     'C09': {
-        'text': ('Fault enumeration: for every explored call of ~80 err_t-returning high-level functions each of its N allocations is failed in turn '
+        'text': ('Fault enumeration: for every explored call of ~125 err_t-returning high-level functions each of its N allocations is failed in turn '
                  '(singly and persistently) on the simulated heap; oracle: error code, empty live set, no crash. Bad-argument variants derived from the '
                  'headers\' \\expect lines with the named error class as oracle, and no-release-on-authentication-failure checks for unwrap functions.'),
         'design_ref': 'DESIGN.md §3 C09',
@@ -277,9 +279,9 @@ MANIFEST_TEXT = {
         'technique': 'deterministic simulation: per-call allocation-fault enumeration + header-derived bad-argument workload',
     },
     'C15': {
-        'text': ('Secret-differential free monitor on the simulated heap: each secret-taking call runs twice with different secrets from an identical '
+        'text': ('Secret-differential free monitor on the simulated heap: each secret-taking call, and each whole bake/BAUTH session, runs twice with different secrets from an identical '
                  'simulator state; every released block is snapshotted at the instant of release and the two snapshots must agree except where '
-                 'equal to public output. Error exits are reached by allocation-fault injection and error variants.'),
+                 'equal to public output (single calls) or to the wire transcript, certificates and hellos (sessions). Error exits are reached by allocation-fault injection and error variants.'),
         'design_ref': 'DESIGN.md §3 C15',
         'note': 'Non-interference oracle needs no knowledge of state layouts; it cannot see secrets left on the C stack or in registers.',
         'technique': 'deterministic simulation: free-time snapshots + two-secret differential with fault-reached exits',
